@@ -46,9 +46,24 @@ class DlMain(FactRule):
         return ts
 
     def on_assign(self, ctx, lhs, rhs, op, value, ts):
-        if ctx.fn is self.fn and last_field(lhs) == 'fail_no_ranges' and op == '=':
+        # locals that hold a constant (a parameter of an expanded helper bound to a literal argument)
+        if ctx.fn is self.fn and strip(lhs) is not None and strip(lhs).k == 'var' and op == '=':
+            d_ = strip(lhs).decl
+            ts = frozenset(x for x in ts if not (isinstance(x, tuple) and x[0] == 'kconst' and x[1] == d_))
+            cv_ = const_value(rhs) if rhs is not None else None
+            if cv_ is not None:
+                ts = ts | frozenset([('kconst', d_, cv_)])
+        if ctx.fn is self.fn and last_field(lhs) == 'fail_no_ranges' and strip(lhs).k == 'mem' and op == '=':
             self.rejects200 = getattr(self, 'rejects200', 0) + 1
             cv = const_value(rhs) if rhs is not None else None
+            if cv is None and rhs is not None:
+                r_ = strip(rhs)
+                while r_ is not None and r_.k == 'cast' and r_.a:
+                    r_ = strip(r_.a[0])
+                if r_ is not None and r_.k == 'var':
+                    for x in ts:
+                        if isinstance(x, tuple) and x[0] == 'kconst' and x[1] == r_.decl:
+                            cv = x[2]
             if cv is not None and cv != 0:
                 ts = ts | frozenset(['reject-200'])
             else:
